@@ -32,14 +32,22 @@ def judge(case):
     T = sg.Tensor
     if kind.startswith("untracked"):
         import contextlib
-        under_retain = kind.endswith("+retain_grads"); kind0 = kind.split("+")[0]
+        kind0 = kind.split("+")[0]
         refs = []
         x = T(np.array([1.0, 2.0]), requires_grad=(kind0 == "untracked_no_grad"))
+        varying = "+varying_scalars" in kind
+        kind0 = kind0.replace("+varying_scalars", ""); under_retain = "+retain_grads" in kind
+        live = []
+        def count_live():
+            gc.collect()
+            return sum(1 for o in gc.get_objects() if isinstance(o, T))
         def loop():
             y = x * 1.0
             for i in range(n):
-                y = y * 1.0001 + 0.1
+                if varying: y = y * (1.0 - 1.0 / (i + 2.5)) + 0.001 * i - (i + 1.0) / (i + 3.0)     # a different Python scalar every step
+                else: y = y * 1.0001 + 0.1
                 if i < n - 10: refs.append(weakref.ref(y))
+                if i in (n // 2, n - 1): live.append(count_live())
             return y
         with (sg.retain_grads() if under_retain else contextlib.nullcontext()):
             if kind0 == "untracked_no_grad":
@@ -52,6 +60,8 @@ def judge(case):
         if y.requires_grad: v("result-requires-grad", "untracked result requires grad")
         if alive > 4:
             v("history-kept", f"{alive} of the {len(refs)} earlier intermediate tensors are still alive after an untracked loop of {n} steps")
+        if len(live) == 2 and live[1] - live[0] > 8:
+            v("live-tensors-grow", f"the number of live Tensor objects grew from {live[0]} to {live[1]} between step {n // 2} and step {n} of an untracked loop")
         del y
         return {"nontrivial": n >= 100, "outcome": "ok", "violations": viol}
     calls, (BF, orig) = _count_calls(sg)
@@ -165,7 +175,8 @@ def all_cases(tier):
     sizes = SIZES_Q if tier == "quick" else SIZES_T
     out = []
     for kind in ("chain", "ladder", "tree", "fanin", "untracked_no_grad", "untracked_no_operand_requires_grad",
-                 "untracked_no_grad+retain_grads", "untracked_no_operand_requires_grad+retain_grads"):
+                 "untracked_no_grad+retain_grads", "untracked_no_operand_requires_grad+retain_grads",
+                 "untracked_no_grad+varying_scalars", "untracked_no_operand_requires_grad+varying_scalars"):
         for n in sizes:
             if kind == "ladder" and n > 20000: continue
             out.append({"kind": kind, "n": n})
@@ -183,7 +194,7 @@ def run(tier, seed):
     r = engine.run_cases(cases, dispatch)
     cov = {"evaluations": r["evaluations"], "distinct_nontrivial": r["distinct_nontrivial"],
            "rule": "program shapes {chain, diamond ladder (each node feeds the next two), binary-tree reduction, wide fan-in, "
-                   "untracked loop under no_grad, untracked loop with no operand requiring grad, both also inside retain_grads} x sizes %s, default recursion "
+                   "untracked loop under no_grad, untracked loop with no operand requiring grad, both also inside retain_grads and with a different Python-scalar operand at every step (global count of live Tensor objects must not grow)} x sizes %s, default recursion "
                    "limit; per case: backward completes, closed-form gradient, every backward function invoked exactly once "
                    "(also on a second backward), <= 4 earlier tensors alive after an untracked loop; non-trivial = size >= 100"
                    % (SIZES_Q if tier == "quick" else SIZES_T),
